@@ -31,7 +31,7 @@ pub enum Mode {
 
 impl Mode {
     pub fn enable_tcp(&self) -> bool {
-        matches!(self, Self::Tcp | Self::TcpAndUdp)
+        matches!(self, Self::Tcp | Self::TcpAndUdp | Self::TcpAndQuic)
     }
 
     pub fn enable_udp(&self) -> bool {
